@@ -1015,6 +1015,10 @@ impl PartitionedFileGroup {
                     target: retained_file.clone(),
                     link: dropped_file,
                 }),
+                // A symbolic link holds no data to share. Cloning "into" it would write to the
+                // file it points to, which is not locked and may not even be one of the
+                // reported files.
+                DedupeOp::RefLink if is_link(&dropped_file) => {}
                 DedupeOp::RefLink => commands.push(FsCommand::RefLink {
                     target: retained_file.clone(),
                     link: dropped_file,
